@@ -3,6 +3,7 @@
 -/
 import SV.Proofs.Engine
 import SV.Proofs.EngineKi
+import SV.Proofs.EngineIntrAny
 import SV.Proofs.Stateful
 import SV.Proofs.StatefulMachine
 import SV.Model.Plan
@@ -159,6 +160,34 @@ example : ∃ s, Reach .repaired (init [⟨1, 1, 0, .success, false⟩] 1 none) 
                  .phaseFinished .interrupted false] := by decide
   obtain ⟨s, hf, h1, h2, h3⟩ := h
   exact ⟨s, fireAll_reach _ _ _ s _ Reach.refl hf, h1, h2, h3⟩
+
+/-- **Any Interrupted ends the unit phase's stream**, whoever reported it (the consumer or a worker), on every
+    schedule: before it no Interrupted occurs, with it the stop flag is set and the status is INTERRUPTED, and after it
+    come only the two closing events (INTERRUPTED whenever a worker event had been consumed). -/
+theorem any_interrupt_ends_the_stream (v : Variant) (ops : List Script) (n : Nat) (m : Option Nat) (s : St)
+    (hr : Reach v (init ops n m) s) (e : Ev) (hmem : e ∈ s.c.out) (hie : isAnyIntr e = true) :
+    s.c.ctl.stop = true ∧ s.c.status = some .interrupted ∧
+    ∃ o b, NoIntr o ∧
+      ((s.c.pc = .closing ∧ s.c.out = o ++ [.interrupted b]) ∨
+       (s.c.pc = .done ∧ ∃ st ntt, s.c.out = o ++ [.interrupted b, .suiteFinished st, .phaseFinished st ntt] ∧
+          (s.c.executed = true → st = .interrupted))) := by
+  rcases (intrAnyInv_reach v _ s hr (intrAnyInv_init ops n m)).shape with hn | ⟨o, b, ho, hs, hst, hrest⟩
+  · have := hn e hmem
+    rw [hie] at this
+    cases this
+  · exact ⟨hs, hst, o, b, ho, hrest⟩
+
+/-- non-vacuity: a stop request while the worker is between requests; the worker reports ScenarioFinished(INTERRUPTED)
+    and Interrupted, the consumer passes the first on and closes the phase as INTERRUPTED -/
+example : ∃ s, Reach .repaired (init [⟨1, 1, 0, .success, false⟩] 1 none) s ∧ s.c.pc = .done ∧
+    (∃ e ∈ s.c.out, isAnyIntr e = true) := by
+  have h : ∃ s, fireAll .repaired (init [⟨1, 1, 0, .success, false⟩] 1 none)
+      [.cStart, .worker 0, .worker 0, .worker 0, .envStop, .worker 0, .worker 0, .worker 0, .worker 0,
+       .cGot false, .cJoined] = some s ∧
+      s.c.pc = .done ∧ s.c.out.any isAnyIntr = true := by decide
+  obtain ⟨s, hf, h1, h2⟩ := h
+  refine ⟨s, fireAll_reach _ _ _ s _ Reach.refl hf, h1, ?_⟩
+  simpa [List.any_eq_true] using h2
 
 /-! ### the plan: phases in order, each opened and closed once -/
 
